@@ -190,6 +190,11 @@ func Child(c *run.Ctx, name string) {
 		if r.Intn(10) == 0 {
 			o.MaxSamples = 250 // several channel messages of 100 entries
 		}
+		// every fourth case the consumer pauses after every message (a slow client): upstream stages block on their sends
+		rn.Pace = 0
+		if gi%4 == 1 {
+			rn.Pace = 100 * time.Microsecond
+		}
 		o.Malformed = (o.JSONLines || o.Logfmt) && gi%3 == 2 && r.Intn(3) == 0
 		db := logq.NewDB(r, o)
 		if gi%21 == 0 && (o.JSONLines || o.Logfmt) && len(db.Series) > 0 {
